@@ -108,6 +108,9 @@ func Known(id string) bool {
 		if k == id && id != "" {
 			return true
 		}
+		if strings.HasSuffix(k, "*") && strings.HasPrefix(id, strings.TrimSuffix(k, "*")) { // discovery runs only
+			return true
+		}
 	}
 	return false
 }
